@@ -37,9 +37,24 @@ Inductive obsitem :=
 | OThr (i : N) (thr off n : Z) (r : list (N * Z)).
 
 Inductive c13case :=
-| Case (bs ext : Z) (paint0 : list (iv * N)) (obs0 : list obsitem) (steps : list (rop * N * list obsitem)).
+| Case (bs ext : Z) (paint0 : list (iv * N)) (obs0 : list obsitem) (steps : list (rop * N * list obsitem))
+(* a history too big to print (thousands of elements, sized from the flush thresholds of the reload
+   code): the driver compares every view with the element set returned by all-elements and prints
+   only the projected facts (class code of the view, key, expected size, observed size, number of
+   expected members missing, number of members not expected) *)
+| Big (facts : list (Z * Z * Z * Z * Z * Z)).
 Definition case_parts (c : c13case) :=
-  match c with Case a b p o s => (a, b, p, o, s) end.
+  match c with
+  | Case a b p o s => (a, b, p, o, s)
+  | Big _ => (1, 1, [], [], [])
+  end.
+Definition fact_ok (f : Z * Z * Z * Z * Z * Z) : bool :=
+  let '(_, _, ex, ob, mi, xt) := f in (ex =? ob) && (mi =? 0) && (xt =? 0).
+Definition big_class (facts : list (Z * Z * Z * Z * Z * Z)) : nat :=
+  match find (fun f => negb (fact_ok f)) facts with
+  | Some (c, _, _, _, _, _) => Z.to_nat c
+  | None => O
+  end.
 
 (* ---------- geometry of the slab volume ---------- *)
 Definition in_yz (ext : Z) (p : pos) : bool := (0 <=? pY p) && (pY p <? ext) && (0 <=? pZ p) && (pZ p <? ext).
@@ -173,6 +188,7 @@ Fixpoint model_steps (bs ext : Z) (s : state) (tb : list obsitem) (steps : list 
     && model_steps bs ext s' tb' rest
   end.
 Definition model_ok (c : c13case) : bool :=
+  match c with Big facts => forallb fact_ok facts | _ => true end &&
   let '(bs, ext, paint0, obs0, steps) := case_parts c in
   let s0 := init (paint_body ext paint0) in
   let tb := upd_all [] obs0 in
@@ -257,7 +273,8 @@ Definition spec_plain (c : c13case) : nat :=
   | O => spec_steps bs ext tb steps
   | k => k
   end.
-Definition spec_class := spec_plain.
+Definition spec_class (c : c13case) : nat :=
+  match c with Big facts => big_class facts | _ => spec_plain c end.
 
 Fixpoint classify_from (i : nat) (l : list c13case) : list (nat * nat) :=
   match l with
@@ -297,3 +314,4 @@ Definition zTop (i n : Z) (r : list (Z * Z)) := OTop (Z.to_N i) n (zlz r).
 Definition zThr (i thr off n : Z) (r : list (Z * Z)) := OThr (Z.to_N i) thr off n (zlz r).
 Definition zStep (r : rop) (cls : Z) (os : list obsitem) : rop * N * list obsitem := (r, Z.to_N cls, os).
 Definition zCase (bs ext : Z) (paint0 : list (iv * Z)) := Case bs ext (zpaint paint0).
+Definition zBig := Big.
